@@ -12,6 +12,7 @@ import (
 	"reflect"
 	"strconv"
 	"strings"
+	"time"
 
 	"github.com/getkin/kin-openapi/openapi3"
 )
@@ -206,6 +207,9 @@ func (g *Generator) generateFieldSchemaWithRefs(t reflect.Type, field reflect.St
 	for t.Kind() == reflect.Ptr {
 		t = t.Elem()
 	}
+	if schema := wellKnownTypeSchema(t); schema != nil {
+		return schema
+	}
 
 	switch t.Kind() {
 	case reflect.Struct:
@@ -257,6 +261,9 @@ func (g *Generator) generateTypeSchemaWithRefs(t reflect.Type) *openapi3.Schema 
 	for t.Kind() == reflect.Ptr {
 		t = t.Elem()
 	}
+	if schema := wellKnownTypeSchema(t); schema != nil {
+		return schema
+	}
 
 	switch t.Kind() {
 	case reflect.Slice, reflect.Array:
@@ -292,6 +299,24 @@ func getTypeName(t reflect.Type) string {
 	}
 	// Fallback for anonymous types.
 	return fmt.Sprintf("Type%p", t)
+}
+
+var timeType = reflect.TypeOf(time.Time{})
+
+// wellKnownTypeSchema describes the types whose JSON encoding does not follow
+// from their Go kind: encoding/json writes a []byte as a base64 string, a
+// time.Time as an RFC 3339 string, and an interface-typed value as whatever it
+// holds. It returns nil for every other type.
+func wellKnownTypeSchema(t reflect.Type) *openapi3.Schema {
+	switch {
+	case t == timeType:
+		return openapi3.NewDateTimeSchema()
+	case t.Kind() == reflect.Slice && t.Elem().Kind() == reflect.Uint8:
+		return openapi3.NewBytesSchema()
+	case t.Kind() == reflect.Interface:
+		return openapi3.NewSchema() // any value
+	}
+	return nil
 }
 
 // convertPrimitiveType converts primitive Go types to OpenAPI schemas.
@@ -363,6 +388,9 @@ func convertTypeWithDepthLimit(t reflect.Type, visited map[reflect.Type]*openapi
 	if depth <= 0 {
 		schema := openapi3.NewObjectSchema()
 		schema.Description = "Depth limit reached"
+		return schema
+	}
+	if schema := wellKnownTypeSchema(t); schema != nil {
 		return schema
 	}
 
@@ -468,6 +496,9 @@ func convertReflectTypeToSchemaWithVisited(t reflect.Type, visited map[reflect.T
 	originalType := t
 	for t.Kind() == reflect.Ptr {
 		t = t.Elem()
+	}
+	if schema := wellKnownTypeSchema(t); schema != nil {
+		return schema
 	}
 
 	// Only check for cycles with struct types, as primitive types should always create new instances
@@ -853,6 +884,9 @@ func (g *NestedRefGenerator) generateSchema(t reflect.Type) *openapi3.Schema {
 	// Dereference pointers
 	for t.Kind() == reflect.Ptr {
 		t = t.Elem()
+	}
+	if schema := wellKnownTypeSchema(t); schema != nil {
+		return schema
 	}
 
 	// Primitive types: always expand, never use $ref
